@@ -26,7 +26,7 @@ type boundedResult struct {
 	Output    string `json:"-"`
 }
 
-// which properties run the reopen harness (construct/readMetadata are trusted in the proofs of these)
+// which properties run the reopen harness (readMetadata keeps trusted post-conditions in the proofs of these)
 var boundedReopenProps = map[string]bool{"C12": true, "C16": true}
 
 const boundedExtra = "S,S,S,P;A,S,S,P;S,W0,S,P,W0;W0,S,W0,G,W5;W0,A,W0,S,G,W5,A;S,G,S,G,W5"
@@ -57,7 +57,7 @@ func runBoundedReopen(repo, verif, tier string) *boundedResult {
 	t0 := time.Now()
 	out, _ := cmd.CombinedOutput()
 	res := &boundedResult{Name: "reopen-equivalence (replica.New / Reload after every operation sequence)", Bound: "all sequences of <= " + bound + " operations over {W0,W1,W5,S,A,G,P} plus " + fmt.Sprint(len(strings.Split(boundedExtra, ";"))) + " fixed longer ones",
-		WallS: time.Since(t0).Seconds(), Note: "bounded stand-in on the real code for construct/readMetadata (trusted in the proofs); NOT counted in obligations/discharged", Output: string(out)}
+		WallS: time.Since(t0).Seconds(), Note: "bounded stand-in on the real code for the directory walk readMetadata (post-conditions trusted in the proofs); NOT counted in obligations/discharged", Output: string(out)}
 	m := regexp.MustCompile(`BOUNDED-RESULT bound=\d+ sequences=(\d+) failures=(\d+) first="(.*)"`).FindStringSubmatch(string(out))
 	if m == nil {
 		res.Failures = -1
